@@ -9,3 +9,17 @@ open TruthModel.C02
 #print axioms lowerAssign_sound_partial
 #print axioms lowerArgs_sound
 #print axioms lowerCall_sound_partial
+#print axioms lowerSetJ_eq
+#print axioms TruthModel.Lower.execFrag_append
+#print axioms TruthModel.Lower.execFrag_reach
+#print axioms TruthModel.Lower.execJ_of_reach
+#print axioms negateCmp_int
+#print axioms cmp_sound
+#print axioms condSoundAt
+#print axioms lowerCountJmp_sound
+#print axioms lowerCondJump_sound
+#print axioms lowerCondJump_reach
+#print axioms lowerTernarySet_sound
+#print axioms lowerTernary_sound
+#print axioms nan_negation_witness
+#print axioms loc_order_drops_time
